@@ -626,7 +626,12 @@ func (c *runnerCfg) writeEvidence(worlds []*World, outs []*worldOutcome, wall ti
 	total := NewAgg("all")
 	perWorld := map[string]any{}
 	var samples []any
-	var real, stub, assumptions []string
+	var real, stub []string
+	assumptions := []string{
+		"simnet models TCP as seen through package net on Linux (ordered byte streams, FIN/RST, bounded buffers); RST is delivered after the data that preceded it",
+		"the simulated system is built with Go 1.26.8's standard library (shipped binary: 1.23.12); testing/synctest provides the fake clock and quiescence",
+		"seeded sampling: a clean batch is evidence, not proof",
+	}
 	rule := ""
 	level := "exploration"
 	seen := map[string]bool{}
